@@ -102,7 +102,7 @@ def sweep_front(profile, n_quick, n_thorough, cats=None, corpus=None, compile=Fa
 
 
 def sweep_runner(ctx, results):
-    """C13/C15/C18: flags x path spellings x output-path states through the CLI, against Model/Runner and the judges"""
+    """C13/C15/C17/C18: flags x path spellings x output-path states through the CLI, against Model/Runner and the judges"""
     outp = os.path.join(ctx["scratch"], "runner-%d.json" % ctx["widen"])
     bases = (6 if ctx["tier"] == "quick" else 30) * (2 if ctx["widen"] > 1 else 1)
     cmd = [ctx["harness"], "runner", "-cli", ctx["cli"], "-driver", ctx["driver"], "-prop", ctx["pid"], "-bases", str(bases),
@@ -115,11 +115,11 @@ def sweep_runner(ctx, results):
 
 
 def sweep_history(ctx, results):
-    """C12: stale / truncated / broken content at the output path, edit-run histories"""
+    """C12 (and, for acceptance only, C03): stale / truncated / broken content at the output path, edit-run histories"""
     outp = os.path.join(ctx["scratch"], "history-%d.json" % ctx["widen"])
     bases = (2 if ctx["tier"] == "quick" else 6) * (2 if ctx["widen"] > 1 else 1)
     cmd = [ctx["harness"], "history", "-cli", ctx["cli"], "-bases", str(bases), "-seed", str(ctx["seed"]),
-           "-replays", ctx["replays"], "-out", outp]
+           "-replays", ctx["replays"], "-out", outp, "-prop", ctx["pid"] if ctx["pid"] in ("C03", "C12") else "C12"]
     if ctx["tier"] == "thorough":
         cmd.append("-thorough")
     rc, out = ctx["run"](cmd, cwd=ctx["scratch"])
@@ -221,7 +221,7 @@ MODELLED = {
     "C15": F_RUNNER + ["pkg/parser/parser.go:NewParser", "pkg/parser/parser.go:overlayForPreviousOutput"],
     "C16": ["pkg/builder/assignment.go:assignmentBuilder.sliceToSlice", "pkg/builder/assignment.go:assignmentBuilder.structFieldAndStruct",
             "pkg/util/types.go"],
-    "C17": ["pkg/parser/interface.go", "pkg/parser/parser.go", "pkg/util/ast.go"],
+    "C17": ["pkg/parser/interface.go", "pkg/parser/parser.go", "pkg/util/ast.go", "pkg/config/config.go:Config.ParseArgs"],
     "C18": F_RUNNER + ["pkg/logger/logger.go"],
     "C19": ["pkg/option/", "pkg/parser/comment.go:Parser.parseNotationInComments"],
 }
@@ -283,7 +283,7 @@ PROPS = {
                    sweep_front("notations", 80, 2000, cats=["exit", "missing-func"]),
                    sweep_front("signatures", 60, 2000, cats=["exit", "missing-func"]),
                    sweep_front("selection", 60, 2000, cats=["exit", "missing-func"]),
-                   sweep_front("imports", 60, 2000, cats=["exit", "missing-func"])],
+                   sweep_front("imports", 60, 2000, cats=["exit", "missing-func"]), sweep_history],
         "rule": "well-formed setup files with unusual layouts (no comments, one-line interfaces, comments on brace lines, adjacent "
                 "declarations, several interfaces, CRLF, no final newline, directives in both spellings, surrounding declarations of "
                 "every kind) and well-formed notation mixes; judged: exit 0 and one function per method; distinct = distinct "
@@ -446,10 +446,13 @@ PROPS = {
         "assumptions": ["flag parsing is modelled for the four documented flags (the flag package itself is not)"],
     },
     "C14": {
-        "bridge": TABLES + DEC("Hooks", "Function", "Run", "Parse", "Notation"),
+        "bridge": TABLES + DEC("Hooks", "Function", "Run", "Parse", "Notation", "Util", "Resolve"),
         "sweeps": [sweep_front("malformed", 200, 6000, cats=["exit", "stderr"]),
                    sweep_front("mixed", 80, 3000, cats=["exit", "stderr"]),
-                   sweep_front("plain", 40, 1500, cats=["exit", "stderr"])],
+                   sweep_front("plain", 40, 1500, cats=["exit", "stderr"]),
+                   # wrongly shaped members named in source paths (methods without result, with parameters, with three results)
+                   sweep_front("getters", 60, 2000, cats=["exit", "stderr"]),
+                   sweep_front("hooks", 40, 1500, cats=["exit", "stderr"])],
         "rule": FRONT_RULE % "malformed",
         "explanation": "model functions are total; diagnostics of notation lines are positioned; crash sites of the notation "
                        "parser characterised exactly (hook lookup with <2 params; :literal with a Unicode blank)",
@@ -464,16 +467,19 @@ PROPS = {
         "assumptions": [],
     },
     "C17": {
-        "bridge": TABLES + DEC("Parse"),
-        "sweeps": [sweep_front("selection", 150, 4000, cats=["missing-func", "exit", "stderr"])],
-        "rule": FRONT_RULE % "selection",
+        "bridge": TABLES + DEC("Parse", "Run"),
+        "sweeps": [sweep_front("selection", 150, 4000, cats=["missing-func", "exit", "stderr"]), sweep_runner],
+        "rule": FRONT_RULE % "selection" + "; which file is the input (argument, else $GOFILE, also when both are given and differ): "
+                "runs of the built CLI against Model/Runner, judged by where the functions of the input file's interfaces end up",
         "explanation": "entries are exactly visited objects satisfying isTargetIntf (interface, in setup file, named Convergen or "
                        "marked), in scope order; other files / non-interfaces never; no entry => rejected",
         "assumptions": [],
     },
     "C19": {
-        "bridge": DEC("Option", "Notation", "Names"),
-        "sweeps": [sweep_api, sweep_front("casefold", 100, 3000, cats=["body", "slice"])],
+        "bridge": TABLES + DEC("Option", "Notation", "Names"),
+        "sweeps": [sweep_api, sweep_front("casefold", 100, 3000, cats=["body", "slice"]),
+                   # where a :skip line counts at all (methods only) and whose patterns a method's matchers are
+                   sweep_front("scoping", 60, 1500, cats=["body", "slice"])],
         "rule": "operation sequences on one PatternMatcher / IdentMatcher / CompareFieldName with alternating case rule; "
                 "random over pattern/path pools (mixed case, dots, non-ASCII, RE2 classes/escapes/anchors/alternation) plus the "
                 "exhaustive small scope (all strings of length <=2 over {a,A,b,.,µ,Μ,ſ,s} as pattern and path, plain and /re/); "
